@@ -26,6 +26,23 @@ if TYPE_CHECKING:
 
 logger = logging.getLogger(__name__)
 
+# Note: The classes generated from the language specification compare their
+# instances by value and the value of an asset includes the associations it
+# is part of, which in turn contain assets. For reflexive associations such
+# a comparison may never terminate. The model therefore looks for the very
+# objects it was given rather than for equal ones.
+def _contains_object(collection, obj) -> bool:
+    """Return True if the very object obj is an element of the collection"""
+    return any(element is obj for element in collection)
+
+def _remove_object(collection, obj) -> None:
+    """Remove the very object obj from the collection"""
+    for index, element in enumerate(collection):
+        if element is obj:
+            del collection[index]
+            return
+    raise ValueError('Object is not part of the collection.')
+
 @dataclass
 class AttackerAttachment:
     """Used to attach attackers to attack step entry points of assets"""
@@ -232,7 +249,7 @@ class Model():
             'Remove "%s"(%d) from model "%s".',
             asset.name, asset.id, self.name
         )
-        if asset not in self.assets:
+        if not _contains_object(self.assets, asset):
             raise LookupError(
                 f'Asset "{asset.name}"({asset.id}) is not part'
                 f' of model"{self.name}".'
@@ -248,7 +265,7 @@ class Model():
             if entry_point_tuple:
                 attacker.entry_points.remove(entry_point_tuple)
 
-        self.assets.remove(asset)
+        _remove_object(self.assets, asset)
 
         # Release the id and the name so that they can be used again
         self.asset_ids.discard(asset.id)
@@ -272,12 +289,12 @@ class Model():
             asset.name, asset.id, type(association)
         )
 
-        if asset not in self.assets:
+        if not _contains_object(self.assets, asset):
             raise LookupError(
                 f'Asset "{asset.name}"({asset.id}) is not part of model '
                 f'"{self.name}".'
             )
-        if association not in self.associations:
+        if not _contains_object(self.associations, association):
             raise LookupError(
                 f'Association is not part of model "{self.name}".'
             )
@@ -288,14 +305,14 @@ class Model():
         right_field = getattr(association, right_field_name)
         found = False
         for field in [left_field, right_field]:
-            if asset in field:
+            if _contains_object(field, asset):
                 found = True
                 if len(field) == 1:
                     # There are no other assets on this side,
                     # so we should remove the entire association.
                     self.remove_association(association)
                     break
-                field.remove(asset)
+                _remove_object(field, asset)
 
         if not found:
             raise LookupError(f'Asset "{asset.name}"({asset.id}) is not '
@@ -406,7 +423,7 @@ class Model():
         association     - the association to remove from the model
         """
 
-        if association not in self.associations:
+        if not _contains_object(self.associations, association):
             raise LookupError(
                 f'Association is not part of model "{self.name}".'
             )
@@ -418,23 +435,24 @@ class Model():
 
         for asset in left_field:
             assocs = list(asset.associations)
-            assocs.remove(association)
+            _remove_object(assocs, association)
             asset.associations = assocs
 
         for asset in right_field:
             # In fringe cases we may have reflexive associations where the
             # association was already removed when processing the left field
             # assets therefore we have to check if it is still in the list.
-            if association in asset.associations:
+            if _contains_object(asset.associations, association):
                 assocs = list(asset.associations)
-                assocs.remove(association)
+                _remove_object(assocs, association)
                 asset.associations = assocs
 
-        self.associations.remove(association)
+        _remove_object(self.associations, association)
 
         # Remove association from type->association mapping
         association_type = association.__class__.__name__
-        self._type_to_association[association_type].remove(
+        _remove_object(
+            self._type_to_association[association_type],
             association
         )
         # Remove type from type->association mapping if mapping empty
